@@ -38,7 +38,8 @@ CFG = {
     "needs_cli": True,
     "canon": _canon,
     "lean_modules": ["SuccinctlyVerif.Props.C30"],
-    "lean_files": ["SuccinctlyVerif/Props/C30.lean", "SuccinctlyVerif/Model/JqGuards.lean"],
+    "lean_files": ["SuccinctlyVerif/Props/C30.lean", "SuccinctlyVerif/Model/JqGuards.lean", "SuccinctlyVerif/Proof/JqGuards.lean"],
+    "required_theorems": ["SV.Props.C30.guards_bound_allocation_partial", "SV.Props.C30.range_bounded", "SV.Props.C30.repeat_bounded", "SV.Props.C30.setpath_bounded"],
     "generated": ["C30:"],
     "nontrivial": _nontrivial,
     "rule": "request = one program (+ one input document); distinct request lines with a program of at least two bytes that terminated",
